@@ -42,6 +42,9 @@ type Seq struct {
 	// after a governance change about a collateral type the next few generated operations go to CDPs of that type
 	// (keeper attempts, draws and withdrawals to the ratio): the gates must read the parameters in force
 	focusTy, focusN int
+	// LotsCmd, if set ("c05.lots"), makes every successful begin block / keeper liquidation also emit the collateral
+	// auctions it started, read back from the auction store (lots.go)
+	LotsCmd string
 	// AfterCase, if set, sees every executed operation (used for Go-side checks)
 	AfterCase func(kind string, args []string, pre, post Obs, cls kapp.Class, err error)
 }
@@ -52,6 +55,9 @@ func (w *World) NewSeq(out *c.Out, cmd string, no int, r *c.Rng, p cdptypes.Para
 	kapp.SetParams(w.App, ctx, "cdp", &p, func() { w.Keeper().SetParams(ctx, p) })
 	gen := w.App.GetBankKeeper().GetSupply(ctx, "usdx").Amount.BigInt()
 	s := &Seq{W: w, Ctx: ctx, R: r, Out: out, Cmd: cmd, GenUsdx: gen, Tol: make([]int64, len(Types)), No: no}
+	if cmd == "c05.op" { // C05: "exactly its collateral … and its debt enter auctions" is also checked auction by auction
+		s.LotsCmd = "c05.lots"
+	}
 	s.RefreshParams()
 	return s
 }
@@ -281,7 +287,10 @@ func (s *Seq) Liquidate(keeper, owner, ty int, tag string) (kapp.Class, error) {
 			}
 		}
 	}
+	em := sdk.NewEventManager()
+	nextAuction := s.nextAuctionID()
 	cls, err := kapp.Exec(s.Ctx, func(cx sdk.Context) error {
+		cx = cx.WithEventManager(em)
 		msg := cdptypes.NewMsgLiquidate(s.W.Addr(keeper), s.W.Addr(owner), typeName(ty))
 		if e := msg.ValidateBasic(); e != nil {
 			return e
@@ -289,7 +298,10 @@ func (s *Seq) Liquidate(keeper, owner, ty int, tag string) (kapp.Class, error) {
 		return k.AttemptKeeperLiquidation(cx, s.W.Addr(keeper), s.W.Addr(owner), msg.CollateralType)
 	})
 	args := []string{fmt.Sprint(s.Now()), fmt.Sprint(keeper), fmt.Sprint(owner), fmt.Sprint(ty)}
-	s.finish("liquidate", args, fmt.Sprintf("deps=%d|%s", ndeps, tag), pre, cls, err)
+	post := s.finish("liquidate", args, fmt.Sprintf("deps=%d|%s", ndeps, tag), pre, cls, err)
+	if s.LotsCmd != "" && cls == kapp.OK {
+		s.emitLots("liquidate", pre, post, em.Events(), nextAuction, keeper)
+	}
 	return cls, err
 }
 
@@ -348,8 +360,10 @@ func (s *Seq) NextBlock(gapSeconds int64, tag string) (kapp.Class, error) {
 		facs[i] = f.BigInt().String()
 	}
 	skip := s.Ctx.BlockHeight()%s.P.LiquidationBlockInterval != 0
+	em := sdk.NewEventManager()
+	nextAuction := s.nextAuctionID()
 	cls, err := kapp.Exec(s.Ctx, func(cx sdk.Context) error {
-		cdp.BeginBlocker(cx, abci.RequestBeginBlock{}, k)
+		cdp.BeginBlocker(cx.WithEventManager(em), abci.RequestBeginBlock{}, k)
 		return nil
 	})
 	sk := "0"
@@ -362,6 +376,9 @@ func (s *Seq) NextBlock(gapSeconds int64, tag string) (kapp.Class, error) {
 		gone := len(pre.Cdps) - len(post.Cdps)
 		if gone > 0 {
 			s.Out.NoteN("begin:seized", gone)
+		}
+		if s.LotsCmd != "" {
+			s.emitLots("begin", pre, post, em.Events(), nextAuction, -1)
 		}
 	}
 	return cls, err
